@@ -16,7 +16,7 @@ RULE = (
     "(a) complete enumeration over all 43 types x all spec'd controllers x {default, min-1, min, min+1, mid, max-1, max, "
     "max+1 | every enum member by value/name/object + invalid name + out-of-enum ints | both booleans | every unit variant} "
     "x {strict, lenient} x {setattr, constructor keyword}, each shard after a different prelude (nothing / successful loads / failed loads / a load failing inside a nested load); (b) Hypothesis: random assignment histories on one module "
-    "(previous values vary). distinct = (type, controller, unit, value, mode, path) tuple / history hash; non-trivial = value "
+    "(previous values vary; steps include an out-of-range value stored under lenient mode - what a load does - and strict re-assignment of whatever the controller currently holds, which must be refused when that value is out of range). distinct = (type, controller, unit, value, mode, path) tuple / history hash; non-trivial = value "
     "at or one beyond a bound, invalid enum input, or assignment over a non-default previous value"
 )
 ASSUMPTIONS = [
@@ -24,7 +24,7 @@ ASSUMPTIONS = [
     "unit-dependent ranges are not 'fixed ranges': only their in-range behaviour is claimed",
     "the class of the exception raised for an invalid enum name/value is not claimed, only that one is raised and the previous value stays",
 ]
-REQUIRED_LABELS = {"quick": ["strict_reject", "lenient_accept", "ctor_reject", "enum_by_name", "dependent_unit"], "thorough": ["strict_reject", "lenient_accept", "ctor_reject", "enum_by_name", "dependent_unit"]}
+REQUIRED_LABELS = {"quick": ["strict_reject", "lenient_accept", "ctor_reject", "enum_by_name", "dependent_unit", "history_lenient_out_of_range", "history_repeat_out_of_range_strict", "history_repeat_in_range"], "thorough": ["strict_reject", "lenient_accept", "ctor_reject", "enum_by_name", "dependent_unit"]}
 
 
 def exhaustive(tier):
@@ -237,7 +237,16 @@ def history(draw):
     for _ in range(n):
         c = draw(st.sampled_from(fixed))
         if c.kind in ("range", "compact", "no_offset"):
-            mode = draw(st.sampled_from(["in", "in", "in", "below", "above"]))
+            mode = draw(st.sampled_from(["in", "in", "in", "below", "above", "lenient_out", "repeat", "repeat"]))
+            if mode == "repeat":
+                # assign again whatever the controller holds now (in strict mode)
+                steps.append([c.name, "repeat", None])
+                continue
+            if mode == "lenient_out":
+                # what a lenient context (the one loads run in) does with an out-of-range value: keeps it
+                v = draw(st.sampled_from([c.min - 1, c.max + 1, c.max + draw(st.integers(1, 5000)), c.min - draw(st.integers(1, 5000))]))
+                steps.append([c.name, "lenient_out", v])
+                continue
             if mode == "in":
                 v = draw(vs.edge_int(c.min, c.max))
             elif mode == "below":
@@ -277,22 +286,45 @@ def run_history(ctx, h):
     if mt.cls_name == "Smooth" and ctx.is_known("C09.default:Smooth.scale"):
         model["scale"] = getattr(mod, "scale")
     nontriv = False
+    lenient_stored = set()
+    labels = set()
     for name, mode, v in h["steps"]:
         c = mt.ctl(name)
         prev = model[name]
         if prev != (getattr(cls.controllers[name].value_type, c.default) if c.kind == "enum" else c.default):
             nontriv = True
         err = None
+        ent = "%s.%s" % (h["type"], name)
+        if mode == "lenient_out":
+            flag_prev = set_flag(False)
+            try:
+                setattr(mod, name, v)
+            except Exception as e:  # noqa: BLE001
+                err = e
+            finally:
+                restore_flag(flag_prev)
+            got = getattr(mod, name)
+            if err is not None or not same(got, v):
+                raise PropertyViolation("C09.history.lenient_keeps", "%s <- %r in lenient mode: err=%r reads %r" % (ent, v, err, got), key="C09.history.lenient_keeps:" + ent)
+            model[name] = v
+            lenient_stored.add(name)
+            labels.add("history_lenient_out_of_range")
+            continue
+        if mode == "repeat":
+            v = prev
+            in_range = c.kind not in ("range", "compact", "no_offset") or c.min <= v <= c.max
+            mode = "in" if in_range else "above"
+            labels.add("history_repeat_in_range" if in_range else "history_repeat_out_of_range_strict")
         try:
             setattr(mod, name, v)
         except Exception as e:  # noqa: BLE001
             err = e
         got = getattr(mod, name)
-        ent = "%s.%s" % (h["type"], name)
         if mode in ("in", "bool"):
             if err is not None or not same(got, v):
                 raise PropertyViolation("C09.history.accept", "%s <- %r: err=%r reads %r" % (ent, v, err, got), key="C09.history.accept:" + ent)
             model[name] = v
+            lenient_stored.discard(name)
         elif mode in ("enum_value", "enum_name"):
             vt = cls.controllers[name].value_type
             want = vt[v] if isinstance(v, str) else vt(v)
@@ -318,8 +350,9 @@ def run_history(ctx, h):
             g2 = getattr(mod, c2.name)
             if not same(g2, model[c2.name]):
                 raise PropertyViolation("C09.history.other_changed", "%s.%s became %r (model %r) after assigning %s" % (h["type"], c2.name, g2, model[c2.name], name), key="C09.history.other_changed:%s.%s" % (h["type"], c2.name))
-            if c2.kind in ("range", "compact", "no_offset") and not (c2.min <= g2 <= c2.max):
+            if c2.kind in ("range", "compact", "no_offset") and c2.name not in lenient_stored and not (c2.min <= g2 <= c2.max):
                 raise PropertyViolation("C09.history.invariant", "%s.%s=%r outside [%d,%d] in strict mode" % (h["type"], c2.name, g2, c2.min, c2.max), key="C09.history.invariant:%s.%s" % (h["type"], c2.name))
+    ctx.label(*labels)
     return nontriv
 
 
